@@ -14,7 +14,7 @@ lists the notification names the harness compares; they must be names the entry 
 
   (multi <line> ...) → (multi <output> ...)   the same operation seen by several models; besides the above:
 
-  (order <op of M-GlyphOrder> <lib> ((<layer> (<glyph> ...)) ...))
+  (order <op of M-GlyphOrder> <lib> ((<layer> (<glyph> ...)) ...) <default layer>)
     → (((<old> <new> <lib at delivery>) ...) <lib>)      M-OrderNotify: the deliveries of Font.GlyphOrderChanged
   (winding reverse (<point> ...)) | (winding (set <bool>) (<point> ...))
     → (<clockwise before> <area is zero> <clockwise after> (<point after> ...))   M-Geom, as `Spec/SettersWinding.lean`
@@ -28,7 +28,7 @@ import DefconModel.Spec.SettersWinding
 import DefconModel.Spec.Geom
 import DefconModel.OrderNotify
 import DefconModel.Drivers.Follow
-import DefconModel.Drivers.GlyphOrderV1
+import DefconModel.Drivers.GlyphOrder
 import DefconModel.Drivers.Geom
 
 namespace DefconModel
@@ -96,13 +96,13 @@ def driverRun (u : Unit) (line : SExp) : Unit × SExp :=
 def encOptNames (v : Option (List String)) : SExp := ofOpt (ofList .str) v
 
 def orderLine : SExp → SExp
-  | .list [.atom "order", op, lib, .list ls] =>
-    match GlyphOrderV1.parseOp op, GlyphOrderV1.optStrList? lib, ls.mapM GlyphOrderV1.parseLayer with
-    | some op, some v, some layers =>
-      let r := OrderNotify.stepN { layers := layers, lib := v } op
+  | .list [.atom "order", op, lib, .list ls, dflt] =>
+    match GlyphOrder.parseOp op, GlyphOrder.optStrList? lib, ls.mapM GlyphOrder.parseLayer, asOpt? asStr? dflt with
+    | some op, some v, some layers, some d =>
+      let r := OrderNotify.stepN { layers := layers, lib := v, default := d } op
       .list [.list (r.2.map (fun ev => .list [encOptNames ev.old, encOptNames ev.new, encOptNames ev.snap])),
              encOptNames r.1.1.lib]
-    | _, _, _ => .atom "bad-op"
+    | _, _, _, _ => .atom "bad-op"
   | _ => .atom "bad-op"
 
 def windingLine : SExp → SExp
